@@ -48,7 +48,7 @@ CHECKS = {
             'Held on the complete boundary sweep for bits {2,3,4,8} and on all seeded / in-situ tensors.',
             '4 ulp float32 slack on round-off dependent comparisons', '5/C13'),
     'C14': ('forward hooks on the integer layers + per-layer R-int bound against the fake-quantized counterpart + range monitors on stored state and activations',
-            'Held on every explored (program, precisions, backend, options) case for MATCH and MAUPITI incl. bias-free layers and dilation on either axis.',
+            'Held on every explored (program, precisions, backend, options) case for MATCH and MAUPITI incl. bias-free layers, dilation on either axis (also depthwise), saturation in both directions and - for MATCH - fully convolutional networks; the unfinished final-Conv2d path of the MAUPITI back-end is recorded as two known findings.',
             'integerize_arch applied to a deep copy of the export; bound = 1 level + own scale/shift approximation error', '5/C14'),
     'C15': ('exhaustive enumeration against the order-independent reference R-lookup + icontract postcondition on CostSpec.__getitem__ in situ (generated models and the whole repository test-suite as a workload)',
             'Exhaustive: every registration order of every pattern subset x every truth assignment x both defaults, the same with one function object shared by two patterns (5700 lookups), plus in-situ lookups made by real conversions.',
@@ -57,7 +57,7 @@ CHECKS = {
             'Quick: strided grids (every tile boundary +-1); thorough: full grids (channels 1..130, kernels, output sizes 1..33, bits), fractional channel counts with gradients, all helpers, rejection probes.',
             'functions called directly on specs satisfying their own pattern', '5/C16'),
     'C17': ('observation-snapshot oracle (incl. an as-is first forward straight after load_state_dict) across save/load into a freshly configured wrapper, incl. real two-process crash (os._exit) / restart round trips',
-            'Held on every explored checkpoint (k 0..5 steps, option changes, train/eval) for PIT / MPS / SuperNet, in-process and across a real process crash.',
+            'Held on every explored checkpoint (k 0..5 steps, option changes, train/eval, checkpoints taken while a parameter group is frozen) for PIT / MPS / SuperNet, in-process and across a real process crash.',
             'configuration re-applied through the public API; same snapshot call on both sides', '5/C17'),
     'C18': ('twin-model oracle over observer-call sequences (all sequences up to length 2/3 + sampled longer ones) incl. as-is cost value / differentiability / gradient, exports pairwise identical, search continues bit-identically; in-situ before/after contract (state_dict bit-wise, training flags, requires_grad) on every outermost export / summary / get_cost call, also under the repository tests',
             'Held on every explored sequence over {export, export(add_bn=False), summary, cost, get_cost, spec switch, forward} for the three methods in train and eval mode.',
@@ -65,7 +65,7 @@ CHECKS = {
     'C19': ('float64 reference R-duccio vs the real regularizers on stub and real models; effective strength recovered by differentiation; complete (epoch, n_epochs) grid',
             'Held on all 1325 (epoch, n_epochs<=50) pairs x cost placements x strength modes, BaseRegularizer, and real PIT models.',
             'positive final strengths read as positive and finite', '5/C19'),
-    'C20': ('direct + in-situ contract on _reassign_precisions (exhaustive small matrices, all compositions), wrapper on _compute_cost recording every evaluated configuration, and end-to-end histories of optimize_prec_assignment with the NE16 cost',
+    'C20': ('direct + in-situ contract on _reassign_precisions (exhaustive small matrices, all compositions), wrapper on _compute_cost recording every evaluated configuration, and end-to-end histories of optimize_prec_assignment with the NE16 cost, incl. a second application to its own result',
             'Held on every explored case: exhaustive small score matrices x all compositions (counts met, one precision per channel) and end-to-end refinements of per-channel NE16 models incl. 33..72-channel layers (promotion only, counts == chosen counts, chosen configuration is a cheapest evaluated one, cost not higher). The four defect mechanisms found on the pinned tree were repaired (5bae6ad, 5521313, eda93e6).',
             'bit-widths read from summary(); chosen counts observed at the call boundary of the reassignment step', '5/C20'),
 }
